@@ -244,6 +244,8 @@ func report(id string, cfg *PropConfig, w *World, reps []*FuncReport, tier strin
 				}
 			case "conflict":
 				undecided = append(undecided, o.Name+": solvers disagree "+r.Solver)
+			case "error":
+				undecided = append(undecided, o.Name+": malformed SMT (engine bug): "+fmt.Sprint(r.Outputs))
 			default:
 				failed = append(failed, o)
 				failedRep[o] = rep
